@@ -20,6 +20,7 @@ import (
 	golog "log"
 	"net"
 	"os"
+	"reflect"
 	"runtime"
 	"sort"
 	"strconv"
@@ -28,6 +29,7 @@ import (
 	"sync/atomic"
 	"testing"
 	"time"
+	"unsafe"
 
 	"github.com/refraction-networking/conjure/internal/verifhook"
 	"github.com/refraction-networking/conjure/internal/vlib"
@@ -65,6 +67,7 @@ type c08World struct {
 	quantum int64
 	objs    map[c08Key]*DecoyRegistration // the object that was delivered last for a registration
 	idb     map[c08Key]string             // transport identifier (raw) of a registration
+	keyOf   map[string]c08Key             // phantom|identifier -> registration
 	alias   map[string]string             // hex identifier -> the short name the model line uses (burst members)
 	tunnels []*c08Tunnel
 	// the instant a sweep would decide on a record that is exactly at a lifetime (left open by the
@@ -152,7 +155,7 @@ func c08CovertSetup() {
 func newC08World() *c08World {
 	c08CovertSetup()
 	w := &c08World{rd: NewRegisteredDecoys(), gt: map[c08Key]*c08GT{}, t0: time.Now(), quantum: 1,
-		objs: map[c08Key]*DecoyRegistration{}, idb: map[c08Key]string{}, alias: map[string]string{}}
+		objs: map[c08Key]*DecoyRegistration{}, idb: map[c08Key]string{}, keyOf: map[string]c08Key{}, alias: map[string]string{}}
 	w.rd.transports[pb.TransportType_Min] = min.Transport{}
 	w.rd.transports[pb.TransportType_Prefix] = prefix.Transport{}
 	w.rd.transports[pb.TransportType_DTLS] = dtls.Transport{}
@@ -197,6 +200,9 @@ func (w *c08World) identRaw(k c08Key) string {
 		id = t.GetIdentifier(d)
 	}
 	w.idb[k] = id
+	if id != "" {
+		w.keyOf[c08Phantoms[k.ph]+"|"+id] = k
+	}
 	return id
 }
 
@@ -300,6 +306,14 @@ type c08Op struct {
 	sub byte
 	// 'C' / 'S': what happens between the sweep's collection and its removals
 	mid []c08Op
+	// 'C' / 'S': the interruption happens before the pos-th removal (0: before the first)
+	pos int
+	// held: the operation arrives while a stand-in holds the registry's own lock — 'r' a reader (a look-up in
+	// progress), 'w' a writer (a track / markActive in progress). For 's' the lock is held from before the
+	// sweep starts, for 'S' from its holdAt-th scheduling point on (-1: from the start); it is released as
+	// soon as the operation is seen waiting for it (or has gone through without waiting).
+	held   byte
+	holdAt int
 }
 
 const c08Unused, c08Active = 600, 21600
@@ -369,6 +383,207 @@ func realTunnelAllowed() bool {
 	return c08Covert.opened < 1200+int(time.Since(c08Covert.start).Seconds()*12)
 }
 
+// ---- lock-holder stand-ins and the sweep controller
+
+// The layout of sync.RWMutex, to see a goroutine WAITING for a lock the harness holds for writing (for a
+// lock held for reading the public TryRLock tells: a queued writer refuses new readers). Where the layout
+// is not the expected one the harness falls back to giving the other goroutine a bounded number of
+// scheduler yields — that can only cost detection power, never raise an alarm.
+var c08RW = func() (l struct {
+	ok            bool
+	state, rcount uintptr
+}) {
+	t := reflect.TypeOf(sync.RWMutex{})
+	fw, ok1 := t.FieldByName("w")
+	frc, ok2 := t.FieldByName("readerCount")
+	if !ok1 || !ok2 || fw.Type != reflect.TypeOf(sync.Mutex{}) || frc.Type.Size() != 4 {
+		return
+	}
+	fs, ok3 := fw.Type.FieldByName("state")
+	if !ok3 || fs.Type.Kind() != reflect.Int32 {
+		return
+	}
+	l.ok, l.state, l.rcount = true, fw.Offset+fs.Offset, frc.Offset
+	return
+}()
+
+// c08Waiting reports whether some goroutine is waiting for m, which the caller holds in mode held.
+func c08Waiting(m *sync.RWMutex, held byte, spins *int) bool {
+	if held == 'r' {
+		if m.TryRLock() {
+			m.RUnlock()
+			return false
+		}
+		return true // a writer is queued behind the reader
+	}
+	if c08RW.ok {
+		base := unsafe.Pointer(m)
+		state := atomic.LoadInt32((*int32)(unsafe.Add(base, c08RW.state)))
+		rc := atomic.LoadInt32((*int32)(unsafe.Add(base, c08RW.rcount)))
+		return state>>3 > 0 || (rc < 0 && rc+(1<<30) > 0) // waiting writers (mutexWaiterShift) / waiting readers (rwmutexMaxReaders)
+	}
+	*spins++
+	return *spins > 20000
+}
+
+// c08UnderHold runs f in a goroutine while the harness holds the registry lock in mode held, releases
+// the lock as soon as f is seen waiting for it (or has finished without needing it), and waits for f.
+// Reports "blocked" / "passed".
+func c08UnderHold(rd *RegisteredDecoys, held byte, f func()) string {
+	if held == 'r' {
+		rd.m.RLock()
+	} else {
+		rd.m.Lock()
+	}
+	release := func() {
+		if held == 'r' {
+			rd.m.RUnlock()
+		} else {
+			rd.m.Unlock()
+		}
+	}
+	done := make(chan struct{})
+	go func() {
+		defer close(done)
+		f()
+	}()
+	spins := 0
+	for {
+		select {
+		case <-done:
+			release()
+			return "passed"
+		default:
+		}
+		if c08Waiting(&rd.m, held, &spins) {
+			release()
+			<-done
+			return "blocked"
+		}
+		runtime.Gosched()
+	}
+}
+
+type c08SweepOpts struct {
+	held   byte   // 0, 'r', 'w'
+	holdAt int    // -1: from before the sweep starts; j: from its j-th scheduling point (before the j-th removal)
+	midAt  int    // the interruption by other operations: before the midAt-th removal
+	mid    func() // nil: no interruption; runs on the caller's goroutine while the sweeper is parked
+	// before is called just before mid with the timeout indices the removal loop has handled so far
+	before func(handled []*DecoyTimeout)
+}
+
+type c08SweepRes struct {
+	n, v    int
+	yields  int
+	midRan  bool   // false: the sweep had fewer scheduling points than midAt+1 — the caller runs the operations afterwards
+	holdMet string // "", "blocked" (the step waited for the lock), "passed" (it went through without waiting: it needed no exclusive access, or it was refused), "not-reached"
+}
+
+// c08SweepWith runs the real removeOldRegistrations in a goroutine that is parked at every scheduling
+// point (verifhook "sweep:before-remove"), so that other operations / a lock holder can be placed at any
+// position of the removal loop.
+func c08SweepWith(rd *RegisteredDecoys, logger *log.Logger, o c08SweepOpts) c08SweepRes {
+	var res c08SweepRes
+	yield, resume, done := make(chan struct{}), make(chan struct{}), make(chan struct{})
+	verifhook.SetScheduler(func(point string) {
+		if point == "sweep:before-remove" {
+			yield <- struct{}{}
+			<-resume
+		}
+	})
+	defer verifhook.SetScheduler(nil)
+	holding := false
+	take := func() {
+		if o.held == 'r' {
+			rd.m.RLock()
+		} else {
+			rd.m.Lock()
+		}
+		holding = true
+	}
+	release := func(met string) {
+		if o.held == 'r' {
+			rd.m.RUnlock()
+		} else {
+			rd.m.Unlock()
+		}
+		holding = false
+		if res.holdMet == "" {
+			res.holdMet = met
+		}
+	}
+	if o.held != 0 && o.holdAt < 0 {
+		take()
+	}
+	// the indices that are expired when the sweep collects: observed at the first scheduling point
+	var collected []*DecoyTimeout
+	go func() {
+		defer close(done)
+		res.n, res.v = rd.removeOldRegistrations(logger)
+	}()
+	spins := 0
+	for {
+		ev := ""
+		if holding {
+			select {
+			case <-yield:
+				ev = "yield"
+			case <-done:
+				ev = "done"
+			default:
+				if c08Waiting(&rd.m, o.held, &spins) {
+					release("blocked")
+				} else {
+					runtime.Gosched()
+				}
+				continue
+			}
+		} else {
+			select {
+			case <-yield:
+				ev = "yield"
+			case <-done:
+				ev = "done"
+			}
+		}
+		if holding {
+			release("passed")
+		}
+		if ev == "done" {
+			if o.held != 0 && res.holdMet == "" {
+				res.holdMet = "not-reached"
+			}
+			return res
+		}
+		j := res.yields
+		res.yields++
+		if j == 0 {
+			for _, ix := range rd.getExpiredRegistrations() {
+				collected = append(collected, rd.decoysTimeouts[ix])
+			}
+		}
+		if o.mid != nil && j == o.midAt {
+			if o.before != nil {
+				var handled []*DecoyTimeout
+				for _, to := range collected {
+					if cur, ok := rd.decoysTimeouts[timeoutIndex(to.decoy, to.identifier)]; !ok || cur != to {
+						handled = append(handled, to)
+					}
+				}
+				o.before(handled)
+			}
+			o.mid()
+			res.midRan = true
+		}
+		if o.held != 0 && j == o.holdAt {
+			spins = 0
+			take()
+		}
+		resume <- struct{}{}
+	}
+}
+
 // runC08 executes one history on the implementation; returns the model line, the implementation's
 // answer (outs + final dump) and whether the history counts (false: it was slower than the limit, or
 // a sweep fell on a boundary instant, and is discarded together with whatever the oracles said).
@@ -384,7 +599,16 @@ func runC08Q(out *vlib.Out, ops []c08Op, quantum int64) (string, string, bool) {
 	var fails []c08Fail
 	checks := 0
 	fail := func(sig, what string) { fails = append(fails, c08Fail{sig, what}) }
+	annot := "" // `@…` annotation of the head token of the next emitted operation (lock-holder stand-in)
 	emit := func(m, o string) {
+		if annot != "" {
+			if i := strings.IndexByte(m, ','); i >= 0 {
+				m = m[:i] + "@" + annot + m[i:]
+			} else {
+				m += "@" + annot
+			}
+			annot = ""
+		}
 		mops = append(mops, m)
 		outs = append(outs, o)
 		first := strings.SplitN(o, " ", 2)[0]
@@ -453,6 +677,35 @@ func runC08Q(out *vlib.Out, ops []c08Op, quantum int64) (string, string, bool) {
 		}
 		if empty > 0 || len(w.rd.decoys) != len(gtPh) {
 			fail("C08:residue-phantom-bucket", fmt.Sprintf("after sweep at %d: %d per-phantom maps stored (%d of them empty), %d phantoms have a tracked registration", now, len(w.rd.decoys), empty, len(gtPh)))
+		}
+	}
+
+	// settle: the removal loop of a sweep at `now` has handled this collected index (observed: removeRegistration
+	// returned for it) before other operations interrupt the sweep — the age rule for this one registration,
+	// on the state the removal found; what happens to the registration afterwards starts from there
+	settle := func(phs, rawID string, now int64) {
+		key, ok := w.keyOf[phs+"|"+rawID]
+		if !ok {
+			return
+		}
+		g := w.gt[key]
+		if g == nil {
+			return
+		}
+		if age := now - g.time; age == c08Unused || age == c08Active {
+			w.boundaryInstant = true
+		}
+		tracked := w.rd.RegistrationExists(w.mkReg(key.ph, key.sec, key.tr)) != nil
+		want := c08Alive(g, now)
+		checks++
+		if tracked && !want {
+			fail("C08:kept-past-lifetime", fmt.Sprintf("%d/%d/%d tracked after its removal step of the sweep at %d: age %d used %v", key.ph, key.sec, key.tr, now, now-g.time, g.used))
+		}
+		if !tracked && want {
+			fail("C08:expired-early", fmt.Sprintf("%d/%d/%d gone after its removal step of the sweep at %d: age %d used %v", key.ph, key.sec, key.tr, now, now-g.time, g.used))
+		}
+		if !want {
+			delete(w.gt, key)
 		}
 	}
 
@@ -528,6 +781,15 @@ func runC08Q(out *vlib.Out, ops []c08Op, quantum int64) (string, string, bool) {
 		phs := c08Phantoms[op.ph]
 		tr := int(c08Transports[op.tr])
 		w.advance(op.now)
+		if op.held != 0 && strings.IndexByte("trmlenT", op.kind) >= 0 && !(op.kind == 'T' && inSweep) {
+			// the operation arrives while a stand-in holds the registry lock: it has to wait, not to fail
+			inner := op
+			inner.held = 0
+			annot = string(op.held)
+			met := c08UnderHold(w.rd, op.held, func() { exec(inner, inSweep) })
+			out.Count(fmt.Sprintf("lock-held:%c:%c:%s", op.held, op.kind, met))
+			return
+		}
 		out.Count("op:" + string(op.kind))
 		switch op.kind {
 		case 't', 'r':
@@ -634,53 +896,105 @@ func runC08Q(out *vlib.Out, ops []c08Op, quantum int64) (string, string, bool) {
 			}
 			sort.Strings(keys)
 			emit(fmt.Sprintf("c,%d", op.now), strings.TrimRight("keys "+strings.Join(keys, " "), " "))
-			type cand struct{ name, ix string }
+			type cand struct{ name, ix, decoy, rawID string }
 			var cands []cand
 			for _, ix := range idx {
 				if to, ok := w.rd.decoysTimeouts[ix]; ok {
-					cands = append(cands, cand{to.decoy + "," + w.spell(to.identifier), ix})
+					cands = append(cands, cand{to.decoy + "," + w.spell(to.identifier), ix, to.decoy, to.identifier})
 				}
 			}
 			sort.Slice(cands, func(i, j int) bool { return cands[i].name < cands[j].name })
-			for _, m := range op.mid {
-				m.now = op.now
-				exec(m, true)
-			}
-			for _, c := range cands {
-				st := w.rd.removeRegistration(c.ix)
-				o := "none"
-				if st != nil {
-					o = vlib.B(st.Valid)
-				}
-				emit(fmt.Sprintf("x,%s,%d", c.name, op.now), o)
-			}
-			emit("T", fmt.Sprint(w.rd.TotalRegistrations()))
-			out.Count(fmt.Sprintf("split-sweep:whitebox:mid=%d", len(op.mid)))
-			sweepOracle(op.now)
-		case 'S':
-			// the real removeOldRegistrations, interrupted at its scheduling point before the first removal
-			fired := false
-			emit(fmt.Sprintf("sb,%d", op.now), "ok")
-			verifhook.SetScheduler(func(point string) {
-				if point == "sweep:before-remove" && !fired {
-					fired = true
-					for _, m := range op.mid {
-						m.now = op.now
-						exec(m, true)
-					}
-				}
-			})
-			n, v := w.rd.removeOldRegistrations(w.logger)
-			verifhook.SetScheduler(nil)
-			emit("se", fmt.Sprintf("swept %d %d", n, v))
-			if !fired {
-				// nothing was collected: the sweep had no removal phase, the operations come after it
+			midDone := false
+			runMid := func() {
+				midDone = true
 				for _, m := range op.mid {
 					m.now = op.now
 					exec(m, true)
 				}
 			}
-			out.Count(fmt.Sprintf("split-sweep:real:mid=%d:interrupted=%v", len(op.mid), fired))
+			for i, c := range cands {
+				if i == op.pos && !midDone {
+					runMid()
+				}
+				var st *regExpireLogMsg
+				if op.held != 0 && i == op.holdAt {
+					// this removal arrives while a stand-in holds the registry lock
+					annot = string(op.held)
+					met := c08UnderHold(w.rd, op.held, func() { st = w.rd.removeRegistration(c.ix) })
+					out.Count(fmt.Sprintf("lock-held:%c:x:%s", op.held, met))
+				} else {
+					st = w.rd.removeRegistration(c.ix)
+				}
+				o := "none"
+				if st != nil {
+					o = vlib.B(st.Valid)
+				}
+				emit(fmt.Sprintf("x,%s,%d", c.name, op.now), o)
+				if !midDone {
+					settle(c.decoy, c.rawID, op.now)
+				}
+			}
+			if !midDone {
+				runMid()
+			}
+			emit("T", fmt.Sprint(w.rd.TotalRegistrations()))
+			posClass := "0"
+			if op.pos > 0 {
+				posClass = ">0"
+			}
+			out.Count(fmt.Sprintf("split-sweep:whitebox:mid=%d:pos%s", len(op.mid), posClass))
+			sweepOracle(op.now)
+		case 'S':
+			// the real removeOldRegistrations, parked at its scheduling points: other operations before its
+			// pos-th removal, a lock holder from its holdAt-th scheduling point (or its start) on
+			head := "sb"
+			if op.held != 0 {
+				head += fmt.Sprintf("@%c%d", op.held, op.holdAt)
+			}
+			emit(fmt.Sprintf("%s,%d", head, op.now), "ok")
+			runMid := func() {
+				for _, m := range op.mid {
+					m.now = op.now
+					exec(m, true)
+				}
+			}
+			o := c08SweepOpts{held: op.held, holdAt: op.holdAt, midAt: op.pos}
+			if len(op.mid) > 0 {
+				o.mid = runMid
+				o.before = func(handled []*DecoyTimeout) {
+					if len(handled) == 0 {
+						return
+					}
+					var ks []string
+					for _, to := range handled {
+						ks = append(ks, to.decoy+","+w.spell(to.identifier))
+					}
+					sort.Strings(ks)
+					emit("xs,"+strings.Join(ks, ","), "ok")
+					for _, to := range handled {
+						settle(to.decoy, to.identifier, op.now)
+					}
+				}
+			}
+			res := c08SweepWith(w.rd, w.logger, o)
+			emit("se", fmt.Sprintf("swept %d %d", res.n, res.v))
+			if len(op.mid) > 0 && !res.midRan {
+				// the sweep had fewer removals than that: it is complete, the operations come after it
+				sweepOracle(op.now)
+				runMid()
+			}
+			posClass := "0"
+			if op.pos > 0 {
+				posClass = ">0"
+			}
+			out.Count(fmt.Sprintf("split-sweep:real:mid=%d:pos%s:interrupted=%v", len(op.mid), posClass, res.midRan))
+			if op.held != 0 {
+				at := "start"
+				if op.holdAt >= 0 {
+					at = "removal"
+				}
+				out.Count(fmt.Sprintf("lock-held:%c:sweep-%s:%s", op.held, at, res.holdMet))
+			}
 			sweepOracle(op.now)
 		case 'l':
 			var ids []string
@@ -740,8 +1054,12 @@ func runC08Q(out *vlib.Out, ops []c08Op, quantum int64) (string, string, bool) {
 	for _, f := range fails {
 		out.OracleFail(f.sig, f.what, model)
 	}
+	c08LastFails = len(fails)
 	return model, impl, true
 }
+
+// c08LastFails: the number of oracle failures of the history runC08Q ran last
+var c08LastFails int
 
 func c08SizeClass(n int) int {
 	for _, c := range []int{1, 10, 100, 999, 1000, 1024, 2000, 5000, 10000, 100000} {
@@ -828,6 +1146,9 @@ func c08RandomHistory(r *vlib.Rand, n, nph, nsec int) []c08Op {
 			default:
 				m.kind = 'e'
 			}
+			if m.kind != 'P' && r.Chance(1, 10) {
+				m.held = []byte{'r', 'w'}[r.Intn(2)]
+			}
 			mid = append(mid, m)
 		}
 		return mid
@@ -868,9 +1189,19 @@ func c08RandomHistory(r *vlib.Rand, n, nph, nsec int) []c08Op {
 			op.now = c08SafeSweep(op.now, starts)
 			switch r.Intn(4) {
 			case 0:
-				op.kind, op.mid = 'C', midOps(op.now)
+				op.kind, op.mid, op.pos = 'C', midOps(op.now), []int{0, 0, 1, 2, 3}[r.Intn(5)]
 			case 1:
-				op.kind, op.mid = 'S', midOps(op.now)
+				op.kind, op.mid, op.pos = 'S', midOps(op.now), []int{0, 0, 1, 2, 3}[r.Intn(5)]
+			}
+			if r.Chance(1, 4) {
+				// a look-up / a writer is inside the registry lock when the sweep (or one of its removals) arrives
+				if op.kind == 's' {
+					op.kind = 'S'
+				}
+				op.held, op.holdAt = []byte{'r', 'w'}[r.Intn(2)], r.Range(-1, 3)
+				if op.kind == 'C' && op.holdAt < 0 {
+					op.holdAt = 0
+				}
 			}
 			// the clock never runs backwards; later operations are on whole minutes again
 			now = (op.now/60 + 1) * 60
@@ -900,6 +1231,9 @@ func c08RandomHistory(r *vlib.Rand, n, nph, nsec int) []c08Op {
 				op.ph, op.sec, op.tr = open[j].ph, open[j].sec, open[j].tr
 				open = append(open[:j], open[j+1:]...)
 			}
+		}
+		if strings.IndexByte("trmlenT", op.kind) >= 0 && r.Chance(1, 12) {
+			op.held = []byte{'r', 'w'}[r.Intn(2)]
 		}
 		ops = append(ops, op)
 	}
@@ -950,7 +1284,12 @@ func c08Boundaries(out *vlib.Out) {
 						for _, sibling := range []bool{false, true} {
 							for _, lim := range []int64{c08Unused, c08Active} {
 								for _, d := range []int64{-1, 1} {
-									for _, sk := range []byte{'s', 'C', 'S'} {
+									for _, skh := range []string{"s", "C", "S", "Cr", "Cw", "Sr", "Sw"} {
+										sk := skh[0]
+										var held byte
+										if len(skh) > 1 {
+											held = skh[1]
+										}
 										if used == 2 && sk == 's' {
 											continue
 										}
@@ -964,12 +1303,15 @@ func c08Boundaries(out *vlib.Out) {
 										if used == 1 {
 											h = append(h, c08Op{kind: 'm', tr: tr, now: 120}, c08Op{kind: 'P', tr: tr, now: 120})
 										}
-										sw := c08Op{kind: sk, now: lim + d}
+										// the interruption / the lock holder sits before the first or the second removal
+										// (with a sibling two registrations expire together)
+										where := (tr + dup + used + int(obj)) % 2
+										sw := c08Op{kind: sk, now: lim + d, held: held, holdAt: where, pos: where}
 										if used == 2 {
 											sw.mid = []c08Op{{kind: 'm', tr: tr}, {kind: 'P', tr: tr}}
 										}
 										h = append(h, sw, c08Op{kind: 'l', now: lim + d}, c08Op{kind: 'n', now: lim + d},
-											c08Op{kind: sk, now: c08Active + d}, c08Op{kind: 'l', now: c08Active + d}, c08Op{kind: 'n', now: c08Active + d})
+											c08Op{kind: sk, now: c08Active + d, held: held, holdAt: 0}, c08Op{kind: 'l', now: c08Active + d}, c08Op{kind: 'n', now: c08Active + d})
 										c08Case(out, h)
 										out.Count("boundary")
 									}
@@ -1046,8 +1388,16 @@ func c08Populations(out *vlib.Out, r *vlib.Rand) {
 		sk := []byte{'s', 'C', 'S'}[si%3]
 		first := c08Op{kind: sk, now: 660}
 		if sk != 's' {
-			// a member is matched by a connection after the sweep collected it
-			first.mid = []c08Op{{kind: 'm', ph: ph, tr: tr, sec: base + n - 1}}
+			// a member is matched by a connection after the sweep collected it, anywhere in the removal loop
+			first.mid = []c08Op{{kind: 'm', ph: ph, tr: tr, sec: base + r.Intn(n)}}
+			first.pos = r.Intn(n)
+			if si%2 == 1 {
+				// … and one of the removals arrives while a look-up / a writer is inside the registry lock
+				first.held, first.holdAt = []byte{'r', 'w'}[si/2%2], r.Range(-1, n-1)
+				if sk == 'C' && first.holdAt < 0 {
+					first.holdAt = 0
+				}
+			}
 		}
 		h = append(h, c08Op{kind: 's', now: 540}, c08Op{kind: 'T', now: 540}, // 9 min: nothing has expired
 			first, c08Op{kind: 'T', now: 660}, c08Op{kind: 'n', ph: ph, now: 660})
@@ -1081,7 +1431,11 @@ func c08Populations(out *vlib.Out, r *vlib.Rand) {
 				h = append(h, c08Op{kind: 'm', ph: b % 3, tr: ri % 3, sec: next + r.Intn(rate), now: at})
 			}
 			next += rate
-			h = append(h, c08Op{kind: []byte{'s', 'S', 'C'}[b%3], now: at + 60}, c08Op{kind: 'T', now: at + 60})
+			sw := c08Op{kind: []byte{'s', 'S', 'C'}[b%3], now: at + 60}
+			if b%4 == 1 && sw.kind != 's' {
+				sw.held, sw.holdAt = []byte{'r', 'w'}[b/4%2], r.Range(0, 3)
+			}
+			h = append(h, sw, c08Op{kind: 'T', now: at + 60})
 		}
 		run(h)
 	}
@@ -1129,6 +1483,23 @@ func TestVerifC08(t *testing.T) {
 			{kind: 'S', now: 21570, mid: []c08Op{{kind: 'm', sec: 1}}}, {kind: 'l', now: 21570}, {kind: 'S', now: 21630, mid: []c08Op{{kind: 'm'}}}, {kind: 'T', now: 21630}},
 		{{kind: 'r', now: 0}, {kind: 'r', sec: 1, now: 0}, {kind: 'S', now: 660, mid: []c08Op{{kind: 'm'}, {kind: 't', sec: 2}, {kind: 'r', sec: 1}}}, {kind: 'l', now: 660}, {kind: 'T', now: 660}},
 	}
+	corpus = append(corpus,
+		// three registrations expire together; a connection on one of them arrives before the first / second /
+		// third removal: that one lives on, the other two are forgotten, whatever the order of the loop
+		[]c08Op{{kind: 'r', now: 0}, {kind: 'r', sec: 1, now: 0}, {kind: 'r', sec: 2, now: 0}, {kind: 'S', now: 660, pos: 0, mid: []c08Op{{kind: 'm', sec: 1}}}, {kind: 'l', now: 660}, {kind: 'T', now: 660}},
+		[]c08Op{{kind: 'r', now: 0}, {kind: 'r', sec: 1, now: 0}, {kind: 'r', sec: 2, now: 0}, {kind: 'S', now: 660, pos: 1, mid: []c08Op{{kind: 'm', sec: 1}}}, {kind: 'l', now: 660}, {kind: 'T', now: 660}},
+		[]c08Op{{kind: 'r', now: 0}, {kind: 'r', sec: 1, now: 0}, {kind: 'r', sec: 2, now: 0}, {kind: 'S', now: 660, pos: 2, mid: []c08Op{{kind: 'm', sec: 2}, {kind: 'P', sec: 2}}}, {kind: 'l', now: 660}, {kind: 'T', now: 660}},
+		[]c08Op{{kind: 'r', now: 0}, {kind: 'r', sec: 1, now: 0}, {kind: 'r', sec: 2, now: 0}, {kind: 'C', now: 660, pos: 1, mid: []c08Op{{kind: 'm', sec: 0}}}, {kind: 'l', now: 660}, {kind: 'T', now: 660}},
+		// a look-up (reader) / a writer is inside the registry lock when the sweep starts, when its first / second
+		// removal arrives, when a connection / a registration / a look-up arrives: everything waits, nothing is skipped
+		[]c08Op{{kind: 'r', now: 0}, {kind: 'r', sec: 1, now: 0}, {kind: 'S', now: 660, held: 'r', holdAt: 0}, {kind: 'l', now: 660}, {kind: 'T', now: 660}},
+		[]c08Op{{kind: 'r', now: 0}, {kind: 'r', sec: 1, now: 0}, {kind: 'S', now: 660, held: 'r', holdAt: 1}, {kind: 'l', now: 660}, {kind: 'T', now: 660}},
+		[]c08Op{{kind: 'r', now: 0}, {kind: 'r', sec: 1, now: 0}, {kind: 'S', now: 660, held: 'w', holdAt: -1}, {kind: 'l', now: 660}, {kind: 'T', now: 660}},
+		[]c08Op{{kind: 'r', now: 0}, {kind: 'r', sec: 1, now: 0}, {kind: 'S', now: 660, held: 'w', holdAt: 1}, {kind: 'l', now: 660}, {kind: 'T', now: 660}},
+		[]c08Op{{kind: 'r', now: 0}, {kind: 'r', sec: 1, now: 0}, {kind: 'C', now: 660, held: 'r', holdAt: 0}, {kind: 'l', now: 660}, {kind: 'T', now: 660}},
+		[]c08Op{{kind: 'r', now: 0, held: 'r'}, {kind: 'm', now: 60, held: 'w'}, {kind: 'm', sec: 1, now: 60, held: 'r'}, {kind: 't', sec: 1, now: 60, held: 'w'}, {kind: 'l', now: 60, held: 'w'}, {kind: 'l', now: 60, held: 'r'},
+			{kind: 'S', now: 660, held: 'r', holdAt: 0, mid: []c08Op{{kind: 'm', sec: 1, held: 'r'}}}, {kind: 'l', now: 660}, {kind: 's', now: 21660}, {kind: 'T', now: 21660}},
+	)
 	for _, h := range corpus {
 		c08Case(out, h)
 	}
@@ -1147,10 +1518,14 @@ func TestVerifC08(t *testing.T) {
 		{kind: 's', now: 630}, {kind: 's', now: 21630}, {kind: 'l'},
 		{kind: 'C', now: 630, mid: []c08Op{{kind: 'm'}}}, {kind: 'S', now: 21630, mid: []c08Op{{kind: 'm'}}},
 		{kind: 'S', now: 630, mid: []c08Op{{kind: 'r', obj: 2}}},
+		// a second registration, so that two expire in one sweep; the interruption before the second removal;
+		// a look-up / a writer inside the registry lock when a removal / a connection arrives
+		{kind: 'r', tr: 1}, {kind: 'S', now: 630, pos: 1, mid: []c08Op{{kind: 'm'}}},
+		{kind: 'S', now: 630, held: 'r', holdAt: 0}, {kind: 'm', held: 'w'},
 	}
 	if vlib.Tier() == "thorough" {
 		c08Exhaustive(out, alpha10, 6) // 1.1 million histories
-		c08Exhaustive(out, alphaX, 5)  // 177 thousand
+		c08Exhaustive(out, alphaX, 5)  // 814 thousand
 	} else {
 		c08Exhaustive(out, alpha10, 4)
 		c08Exhaustive(out, alphaX, 4)
@@ -1226,10 +1601,21 @@ func c08ParseLine(t *testing.T, line string) ([]c08Op, int64) {
 		var res []c08Op
 		for i < len(toks) {
 			p := strings.Split(toks[i], ",")
+			// the head token may carry the annotation of a lock-holder stand-in: m@w, sb@r2, x@r
+			ann := ""
+			if k := strings.IndexByte(p[0], '@'); k >= 0 {
+				p[0], ann = p[0][:k], p[0][k+1:]
+			}
 			if stop != nil && stop(p[0]) {
 				return res, i
 			}
 			op := c08Op{kind: p[0][0]}
+			if ann != "" {
+				op.held = ann[0]
+				if len(ann) > 1 {
+					op.holdAt, _ = strconv.Atoi(ann[1:])
+				}
+			}
 			switch p[0] {
 			case "t", "r", "to", "ro":
 				k := lookup(p[1], p[2], p[3])
@@ -1273,16 +1659,39 @@ func c08ParseLine(t *testing.T, line string) ([]c08Op, int64) {
 				op.now, _ = strconv.ParseInt(p[1], 10, 64)
 				// either `sb; mid…; se` (interrupted) or `sb; se; mid…` (nothing was collected: the
 				// operations follow the sweep, which is what replaying them as plain operations does)
-				var j int
-				op.mid, j = parse(i+1, func(s string) bool { return s == "se" })
+				j := i + 1
+				if j < len(toks) && strings.HasPrefix(toks[j], "xs,") {
+					// the removals the loop had made before it was interrupted
+					op.pos = (len(strings.Split(toks[j], ",")) - 1) / 2
+					j++
+				}
+				op.mid, j = parse(j, func(s string) bool { return s == "se" })
 				i = j
 			case "c":
 				op.kind = 'C'
 				op.now, _ = strconv.ParseInt(p[1], 10, 64)
-				var j int
-				op.mid, j = parse(i+1, func(s string) bool { return s == "x" || s == "T" })
-				for j < len(toks) && strings.HasPrefix(toks[j], "x,") {
+				// c; x…(pos removals); mid…; x…; T — one of the x may be annotated x@r / x@w
+				j, nx := i+1, 0
+				op.held = 0
+				isX := func(t string) bool { return strings.HasPrefix(t, "x,") || strings.HasPrefix(t, "x@") }
+				noteX := func(t string) {
+					if strings.HasPrefix(t, "x@") {
+						op.held, op.holdAt = t[2], nx
+					}
+					nx++
+				}
+				for j < len(toks) && isX(toks[j]) {
+					noteX(toks[j])
 					j++
+				}
+				op.pos = nx
+				op.mid, j = parse(j, func(s string) bool { return s == "x" || s == "T" })
+				for j < len(toks) && isX(toks[j]) {
+					noteX(toks[j])
+					j++
+				}
+				if len(op.mid) == 0 {
+					op.pos = 0
 				}
 				i = j // the closing T
 			default:
@@ -1316,15 +1725,20 @@ func c08Replay(t *testing.T, out *vlib.Out, path string) {
 			continue
 		}
 		ops, quantum := c08ParseLine(t, line)
-		for try := 0; try < 5; try++ {
+		// A history with an interrupted sweep depends on the order in which Go's map iteration hands the
+		// collected indices to the removal loop: it is run until the oracle fails, at most 12 times.
+		for try, good := 0, 0; try < 40 && good < 12; try++ {
 			m, i, ok := runC08Q(out, ops, quantum)
 			if !ok {
 				continue // slower than the limit: run it again
 			}
+			good++
 			out.Case(m, i, true)
 			fmt.Println("REPLAY model-line:", m)
 			fmt.Println("REPLAY impl      :", i)
-			break
+			if c08LastFails > 0 || !strings.Contains(line, "sb") {
+				break
+			}
 		}
 	}
 }
